@@ -113,19 +113,19 @@ func c11WWRun(w *kernel.Worker, j *c11WWJob, rep *kernel.Report) (*Fail, error) 
 		switch got[id] {
 		case 1:
 		case 0:
-			fs.Add(prop + "/two-writers/acknowledged-event-lost/"+site, ctx+fmt.Sprintf(": event %s was acknowledged but is not searchable (returned: %v)", id, got))
+			fs.Add(prop+"/two-writers/acknowledged-event-lost/"+site, ctx+fmt.Sprintf(": event %s was acknowledged but is not searchable (returned: %v)", id, got))
 		default:
-			fs.Add(prop + "/two-writers/event-duplicated/"+site, ctx+fmt.Sprintf(": event %s is returned %d times", id, got[id]))
+			fs.Add(prop+"/two-writers/event-duplicated/"+site, ctx+fmt.Sprintf(": event %s is returned %d times", id, got[id]))
 		}
 	}
 	for id := range got {
 		if !want[id] {
-			fs.Add(prop + "/two-writers/unknown-event", ctx+": returned "+id)
+			fs.Add(prop+"/two-writers/unknown-event", ctx+": returned "+id)
 		}
 	}
 	if len(fin[1].Measure) == 1 {
 		if c, _ := ObsInt(fin[1].Measure[0].M["count(*)"]); c != int64(len(want)) {
-			fs.Add(prop + "/two-writers/count/"+site, ctx+fmt.Sprintf(": stats count = %d, %d events were acknowledged", c, len(want)))
+			fs.Add(prop+"/two-writers/count/"+site, ctx+fmt.Sprintf(": stats count = %d, %d events were acknowledged", c, len(want)))
 		}
 	}
 	_ = delIndex(w, 0, idx)
